@@ -123,9 +123,9 @@ _J_PATS = [
 _U_PATS = [
     (1, r"while!self\.line\{"),
     (2, r"matchself\.bufread\.read_line\(&mutself\.buffer\)\{"),
-    (3, r"Err\(e\)=>returnSome\(Err\(Error::from\(e\)\)\)"),
-    (4, r"Ok\(0\)=>returnNone"),
-    (5, r"Ok\(0\)=>break"),
+    (3, r"Err\(e\)=>\{?returnSome\(Err\(Error::from\(e\)\)\)"),
+    (4, r"Ok\(0\)=>\{?returnNone"),
+    (5, r"Ok\(0\)=>\{?break"),
     (6, r"Ok\(_\)=>\{if!self\.buffer\.trim\(\)\.is_empty\(\)\{self\.line=true;\}else\{self\.buffer\.clear\(\);\}\}"),
     (7, r"letid=matchself::parse::id\(&self\.buffer\)\{"),
     (8, r"Ok\(\(_,x\)\)=>x\.to_string\(\)"),
@@ -133,7 +133,7 @@ _U_PATS = [
     (10, r"self\.buffer\.clear\(\);"),
     (11, r"loop\{"),
     (12, r"matchself::parse::matrix_column::<A>\(&self\.buffer\)\{"),
-    (13, r"Err\(_\w*\)=>break"),
+    (13, r"Err\(_\w*\)=>\{?break"),
     (14, r"Ok\(\(_,column\)\)=>\{columns\.push\(column\);"),
     (15, r"letmatrix=matchself::parse::build_matrix::<A>\(columns\)\{"),
     (16, r"matchFrequencyMatrix::<A>::new\(matrix\)\{"),
